@@ -131,3 +131,49 @@ VARIANTS += [
     V('C15', 'twin: inline location', CMS, "            location = cms_hash(x, hash_seeds[i], width)\n            M[i, location] += delta", "            M[i, cms_hash(x, hash_seeds[i], width)] += delta", expect='clean'),
     V('C15', 'twin: counter guard flipped', CNT, "    def add(self, val):\n        if len(self.default_counter) < self.max_bound_thr:", "    def add(self, val):\n        if self.max_bound_thr > len(self.default_counter):", expect='clean'),
 ]
+
+# ---------------------------------------------------------------- C07 / C06
+_DIAG = """    # note: combinations_with_replacement already contains the diagonal elements
+    return combinations
+"""
+_DIAG_ORIG = """    if args.target_ranking_only != 'True':
+        # Diagonal elements (non-label)
+        combinations += [
+            (individual_column, individual_column)
+            for individual_column in all_columns
+            if individual_column != args.label_column
+        ]
+    return combinations
+"""
+VARIANTS += [
+    V('C07', 'F18 reintroduced: diagonal appended to cwr', CR, _DIAG, _DIAG_ORIG),
+    V('C06', 'F17 reintroduced: diagonal incl. relation features', CR, _DIAG, _DIAG_ORIG),
+    V('C07', 'F16 reintroduced: shared counter', CR, "    full_combination_space = prior_combinations_sample(\n        full_combination_space, args, GLOBAL_PRIOR_CONSTRUCTION_COUNTS[join_string],\n    )", "    full_combination_space = prior_combinations_sample(full_combination_space, args)"),
+    V('C07', 'construction counter not per kind', CR, "GLOBAL_PRIOR_CONSTRUCTION_COUNTS[join_string],", "GLOBAL_PRIOR_CONSTRUCTION_COUNTS['interactions'],"),
+    V('C07', 'descending sort', CR, "key=prior_counts.get, reverse=False)", "key=prior_counts.get, reverse=True)"),
+    V('C07', 'sort a set of the candidates', CR, "tmp = sorted(combinations, key=prior_counts.get, reverse=False)", "tmp = sorted(set(combinations), key=prior_counts.get, reverse=False)"),
+    V('C07', 'cap + 1', CR, "[:args.combination_number_upper_bound]\n\n    for combination in tmp:", "[:args.combination_number_upper_bound + 1]\n\n    for combination in tmp:"),
+    V('C07', 'suffix slice', CR, "[:args.combination_number_upper_bound]\n\n    for combination in tmp:", "[-args.combination_number_upper_bound:]\n\n    for combination in tmp:"),
+    V('C07', 'increment all candidates', CR, "    for combination in tmp:\n        prior_counts[combination] += 1", "    for combination in combinations:\n        prior_counts[combination] += 1"),
+    V('C07', 'increment by 2', CR, "        prior_counts[combination] += 1", "        prior_counts[combination] += 2"),
+    V('C07', 'counts reset every batch', CR, "    missing_combinations = set(set(combinations)).difference(prior_counts.keys())", "    missing_combinations = set(combinations)"),
+    V('C07', 'outside writer', CR, "    random.shuffle(combinations)\n", "    random.shuffle(combinations)\n    GLOBAL_PRIOR_COMB_COUNTS[combinations[0]] += 1\n"),
+    V('C07', 'export filtered', 'outrank/task_ranking.py', "out_dict = {str(k): v for k, v in GLOBAL_PRIOR_COMB_COUNTS.items()}", "out_dict = {str(k): v for k, v in GLOBAL_PRIOR_COMB_COUNTS.items() if v > 0}"),
+    V('C07', 'export counts + 1', 'outrank/task_ranking.py', "out_dict = {str(k): v for k, v in GLOBAL_PRIOR_COMB_COUNTS.items()}", "out_dict = {str(k): v + 1 for k, v in GLOBAL_PRIOR_COMB_COUNTS.items()}"),
+    V('C07', 'interaction candidates with replacement', CR, "itertools.combinations(all_columns, interaction_order),", "itertools.product(all_columns, repeat=interaction_order),"),
+    V('C07', 'twin: heapq.nsmallest', CR, "    tmp = sorted(combinations, key=prior_counts.get, reverse=False)[:args.combination_number_upper_bound]", "    import heapq\n    tmp = heapq.nsmallest(args.combination_number_upper_bound, combinations, key=prior_counts.get)", expect='clean'),
+    V('C07', 'twin: lambda key', CR, "key=prior_counts.get, reverse=False)", "key=lambda c: prior_counts[c])", expect='clean'),
+    V('C07', 'twin: set difference operator', CR, "    missing_combinations = set(set(combinations)).difference(prior_counts.keys())", "    missing_combinations = set(combinations) - set(prior_counts.keys())", expect='clean'),
+    # C06
+    V('C06', 'mirror keeps orientation', CR, "inv = (triplet[1], triplet[0], triplet[2])", "inv = (triplet[0], triplet[1], triplet[2])"),
+    V('C06', 'mirror drops original', CR, "        final_triplets.append(inv)\n        final_triplets.append(triplet)\n", "        final_triplets.append(inv)\n"),
+    V('C06', 'mirror only non-self pairs', CR, "        final_triplets.append(inv)\n        final_triplets.append(triplet)\n", "        if triplet[0] != triplet[1]:\n            final_triplets.append(inv)\n        final_triplets.append(triplet)\n"),
+    V('C06', 'combinations without replacement', CR, "_combinations = itertools.combinations_with_replacement(all_columns, 2)", "_combinations = itertools.combinations(all_columns, 2)"),
+    V('C06', 'relation features in full enumeration', CR, "itertools.combinations_with_replacement(non_rel_columns, 2),", "itertools.combinations_with_replacement(sorted(all_columns), 2),"),
+    V('C06', 'relation x label dropped', CR, "        combinations += [(column, args.label_column) for column in rel_columns]\n", ""),
+    V('C06', 'cap applied after evaluation list copied', CR, "    combinations = prior_combinations_sample(combinations, args)\n    random.shuffle(combinations)", "    sampled = prior_combinations_sample(combinations, args)\n    random.shuffle(combinations)"),
+    V('C06', 'constant path scores 1.0', CR, "final_constant_imp.append((c1, c2, 0.0))", "final_constant_imp.append((c1, c2, 1.0))"),
+    V('C06', 'names swapped in worker result', IE, "    return feature_one, feature_two, ranking_score", "    return feature_two, feature_one, ranking_score"),
+    V('C06', 'twin: inline inverse', CR, "        inv = (triplet[1], triplet[0], triplet[2])\n        final_triplets.append(inv)", "        final_triplets.append((triplet[1], triplet[0], triplet[2]))", expect='clean'),
+    V('C06', 'twin: target-only as list comprehension over list', CR, "            combinations = [x for x in _combinations if args.label_column in x]", "            combinations = [pair for pair in list(_combinations) if args.label_column in pair]", expect='clean'),
+]
